@@ -297,3 +297,57 @@ Definition files_written (t : otype) (l : olevel) (ids : list string) (some_key 
 (* the predicates of the theorems *)
 Definition label_safe (name : string) : bool := negb (contains "(1/1)" name) && negb (contains "As-Is" name).
 Definition plain_name (name : string) : bool := no_nl name && label_safe name.
+
+(* ------------------------------------------------------------------------------------------------------------ *)
+(* The literals of the Go source this model is written from.  harness/astfacts12 re-extracts them from /repo's current
+   source on every check (coq/gen/Facts12.v) and gen/obl_C12.v compares them with these constants by computation;
+   SaverProofs.v (section "source literals") proves that the model's functions are the ones these literals denote. *)
+
+Definition src_clone_id_format : string := "%s (%d/%d)".                (* Runner.generateCloneId, under runNumber > 1 *)
+Definition src_clone_id_cond : string * string * string := ("runner.runNumber", ">", "1").
+Definition src_member_id_format : string := "%s Solution (%d/%d)".      (* Saver.deriveSolutionId *)
+Definition src_as_is_suffix : string := " Solution (As-Is)".            (* Saver.deriveAsIsSolutionId *)
+Definition src_optimised_as_is_suffix : string := " Solution (As-Is)".  (* Saver.deriveAsIsOptimisedSolutionId *)
+Definition src_optimised_suffix : string := " Solution (1/1)".          (* Saver.encodeAndSummariseOptimisedSolution *)
+(* Saver.deriveSummaryIdFromSolution: two strings.Contains special cases IN THIS ORDER, then the LAST match *)
+Definition src_label_pat1 : string := "(1/1)".
+Definition src_label_1 : string := "Optimised".
+Definition src_label_pat2 : string := "As-Is".
+Definition src_label_2 : string := "As-Is".
+Definition src_label_default : string := "".
+Definition src_label_sep : string := "-of-".
+Definition src_label_lits : list string :=
+  [src_label_pat1; src_label_1; src_label_pat2; src_label_2; src_label_default; src_label_sep].
+Definition src_label_case_tests : list string := ["strings.Contains(solution.Id,_)"; "strings.Contains(solution.Id,_)"].
+Definition src_label_index_exprs : list string := ["matches[len(matches)-1]"].
+Definition src_iteration_regex : string := "\d+/\d+".
+Definition src_prettified_regex : string := "/".
+Definition src_set_id_regex : string := "Solution \(.+\)".              (* set.Summary.Id *)
+Definition src_set_id_replacement : string := "Summary".
+Definition src_file_stem_regex : string := "Solution\(.+\)".            (* set.Summary.FileNameSafeId *)
+Definition src_file_stem_lits : list string := [" "; ""; src_file_stem_regex; ""; "/"; "_of_"].
+Definition src_json_name_regex : string := "(.*) Solution.*".           (* json.nameMatcher *)
+Definition src_json_name_index_exprs : list string := ["nameMatcher.FindStringSubmatch(_)[1]"].
+Definition src_detail_stem_lits : list string := [" "; ""; "/"; "_of_"].   (* solution.Solution.FileNameSafeId *)
+Definition src_output_path_lits : list string := ["-"].                 (* set/encoding/{csv,json}.Encoder.deriveOutputPath *)
+Definition src_summary_path_lits : list string := ["Summary"].
+
+(* fmt.Sprintf restricted to the verbs %s and %d *)
+Inductive farg := FS (s : string) | FD (n : nat).
+Fixpoint sprintf (fmt : string) (args : list farg) : option string :=
+  match fmt with
+  | EmptyString => match args with [] => Some EmptyString | _ => None end
+  | String "%" (String "s" rest) =>
+      match args with FS s :: args' => option_map (append s) (sprintf rest args') | _ => None end
+  | String "%" (String "d" rest) =>
+      match args with FD n :: args' => option_map (append (dec n)) (sprintf rest args') | _ => None end
+  | String c rest => option_map (String c) (sprintf rest args)
+  end.
+
+(* the regular expression  <lit, "(" escaped> .+ \)  that [replace_lit_dots_rparen lit] stands for *)
+Fixpoint escape_parens (s : string) : string :=
+  match s with
+  | EmptyString => EmptyString
+  | String c s' => if Ascii.eqb c "("%char then String "\" (String "(" (escape_parens s')) else String c (escape_parens s')
+  end.
+Definition regex_lit_dots_rparen (lit : string) : string := escape_parens lit ++ ".+\)".
